@@ -23,6 +23,7 @@ import traceback
 from collections import Counter
 
 HERE = os.path.dirname(os.path.dirname(os.path.abspath(__file__)))
+OUT = os.environ.get("VF_SCRATCH") or HERE  # evidence/ and new replay files (scratch dir for mutant self-tests)
 REPO = os.environ.get("VF_REPO", "/repo")
 
 
@@ -416,11 +417,12 @@ def main(argv):
         print(f"KNOWN-FINDING: property={prop} {k}: {what} (generated hits this run: {known_hits.get(k, 0)})")
     rc = 0
     vpaths = []
+    odir = os.path.join(OUT, "replays", prop)
     if violations:
-        os.makedirs(rdir, exist_ok=True)
+        os.makedirs(odir, exist_ok=True)
         for v in violations:
             safe = "".join(c if c.isalnum() or c in "-_." else "_" for c in v["bucket"])[:80]
-            path = os.path.join(rdir, f"new-{safe}.json")
+            path = os.path.join(odir, f"new-{safe}.json")
             json.dump(
                 {"property": prop, "tier": tier, "seed": seed, **v, "tree": _tree()},
                 open(path, "w"),
@@ -429,7 +431,7 @@ def main(argv):
             )
             print(f"  bucket={v['bucket']} observed={_short(v['observed'], 300)} expected={_short(v['expected'], 300)}")
             print(f"  case={_short(json.dumps(v['case'], default=repr), 500)}")
-            print(f"VIOLATION property={prop} replay={os.path.relpath(path, HERE)}")
+            print(f"VIOLATION property={prop} replay={os.path.relpath(path, OUT)}")
             vpaths.append(path)
         rc = 1
 
@@ -461,8 +463,8 @@ def main(argv):
         "wall_s": round(wall, 2),
         "violations": len(violations),
     }
-    os.makedirs(os.path.join(HERE, "evidence"), exist_ok=True)
-    with open(os.path.join(HERE, "evidence", f"{prop}.json"), "w") as fh:
+    os.makedirs(os.path.join(OUT, "evidence"), exist_ok=True)
+    with open(os.path.join(OUT, "evidence", f"{prop}.json"), "w") as fh:
         json.dump(ev, fh, indent=1, default=repr)
     print(
         f"{prop} {tier} seed={seed}: evaluations={evals} distinct_nontrivial={len(nontrivial)} "
